@@ -49,7 +49,9 @@ def dstep (s : DSt) (toks : List String) : DSt × String :=
       let (y, o2) := NotifierConc.lineStep s.vn2 r
       ({ s with vn := x, vn2 := y }, if o == o2 then o else s!"models-disagree sequential={o} concurrent={o2}")
   | "om" :: r => let (x, o) := EventsOMap.stepLine s.om r; ({ s with om := x }, o)
-  | "vr" :: r => (s, NotifierRace.checkLine r)
+  | "vr" :: r =>   -- forced schedules: the one-generation race model and the whole-notifier model must both admit the result
+    let a := NotifierRace.checkLine r
+    (s, if a == "accept" then NotifierConc.checkVR r else a)
   | "mt" :: r => (s, EventsSpec.checkMT r)
   | "pt" :: r => (s, EventsSpec.checkPT r)
   | "hw" :: r => (s, EventsSpec.checkHW r)
